@@ -610,8 +610,7 @@ def _oracle_func(tn, A, k, k_loc=None):
     try:
         x = np.asarray(_quiet(tn.optima_func_tt_beam, copy_tt(A), k, k_loc), dtype=float)
     except Exception as e:  # noqa
-        return dict(what='optima_func_tt_beam raises on a rank-1 coefficient tensor', input=inp, got=repr(e)[:200],
-                    finding_key='C15-func-constant-poly' if 'Coefficient array is empty' in repr(e) else None)
+        return dict(what='optima_func_tt_beam raises on a rank-1 coefficient tensor', input=inp, got=repr(e)[:200])
     if x.shape != (d,) or not np.all(np.isfinite(x)) or np.any(x < -1) or np.any(x > 1):
         return dict(what='optima_func_tt_beam returns a point outside the cube [-1, 1]^d', input=inp, got=x.tolist())
     g, P = _cheb_dense(A)
@@ -698,6 +697,16 @@ def search(R, ctx, deep, hints):
             push(_oracle_qtt(tn, Y, k))
     # functional variant, rank-1 coefficient tensors
     nfun = 0
+    # fixed regression inputs (repaired defect F11: constant polynomial handed to polyroots): a mode of size 1, and a
+    # kept candidate at which the partial interpolant vanishes exactly (first mode linear, k = 3)
+    col = lambda v: np.array(v, dtype=float).reshape(1, -1, 1)
+    for A, k in [([col([1, 1, 1]), col([1])], 3), ([col([1]), col([0.5, -1, 2])], 2), ([col([2]), col([-3])], 1),
+                 ([col([0.12573022, -0.13210486]), col([0.64042265, 0.10490012])], 3),
+                 ([col([0.34558419, 0.82161814]), col([0.33043708, -1.30315723])], 3),
+                 ([col([1, 2]), col([1, -4]), col([0, 1, 1])], 5), ([col([0, 1]), col([1, 1])], 3)]:
+        n_eval += 1
+        nfun += 1
+        push(_oracle_func(tn, A, k, None))
     for t in range(60 if deep else 16):
         d = rng.randint(2, 4)
         ns = [rng.randint(1 if t % 4 == 0 else 2, 6) for _ in range(d)]
